@@ -111,11 +111,18 @@ def exec_typing(r):
         mk = lambda x: SeqRecord(Seq(x), id="rec", name="rec", annotations=dict(ann))   # noqa: E731
         return [{"ev": "PlainTyping", "cls": classes.describe(cls), "seq": dna.enc(seq), "res": query(cls, mk(seq)),
                  "twin": {"by": "rot", "k": tw["k"], "res": query(cls, mk(transform(seq, tw)))}}]
-    ev = {"ev": "Typing", "cls": classes.describe(cls), "seq": dna.enc(seq), "res": query(cls, record(seq)),
+    rec1 = record(seq)
+    ev = {"ev": "Typing", "cls": classes.describe(cls), "seq": dna.enc(seq), "res": query(cls, rec1),
           "twin": {"by": "none", "k": 0, "res": {}}, "gen": {"has": False, "toks": [], "res": {}}}
     tw = r.get("twin")
     if tw:
-        if tw["by"] == "rot" and tw.get("via") == "api":
+        if tw["by"] == "rc" and tw.get("via") == "copy":
+            # the other strand made the way that keeps id and annotations: a shallow copy of the record that was just typed,
+            # with its sequence replaced
+            import copy as _copy
+            rec2 = _copy.copy(rec1)
+            rec2.seq = rec1.seq.reverse_complement()
+        elif tw["by"] == "rot" and tw.get("via") == "api":
             # rotate with the implementation's own operator (C02: record >> k)
             rec2 = record(seq) >> tw["k"]
         else:
